@@ -50,10 +50,22 @@ fn dag_spec() -> DagSpec {
     }
 }
 
+/// Allocator-pressure generator: four variables and a non-commutative op, so
+/// that at budget 3 / 4 every row of the allocator's operand table (register /
+/// memory / unassigned for lhs and rhs, output in a register or in memory) is
+/// reached with operands whose order matters
+fn pressure_spec() -> DagSpec {
+    DagSpec {
+        leaves: vec![POp::Var(0), POp::Var(1), POp::Var(2), POp::Var(3)],
+        ops: vec![OpSel::Bin(B::Sub), OpSel::Bin(B::Mul)],
+    }
+}
+
 #[derive(Clone)]
 enum Unit {
     Unary(U),
     Binary(B),
+    Pressure { n: usize, prefix: Vec<POp> },
     Dag { n: usize, prefix: Vec<POp>, variants: bool },
     Fan { w: usize },
     Tree { w: usize },
@@ -82,6 +94,16 @@ fn units(tier: Tier) -> Vec<Unit> {
                 prefix: p,
                 variants: n <= nvar,
             });
+        }
+    }
+    let pmax = match tier {
+        Tier::Quick => 4,
+        Tier::Thorough => 5,
+    };
+    let pspec = pressure_spec();
+    for n in 2..=pmax {
+        for p in pspec.prefixes(n) {
+            v.push(Unit::Pressure { n, prefix: p });
         }
     }
     let wmax = match tier {
@@ -571,6 +593,13 @@ impl Check for C01 {
                         q.roots = vec![2, last, 2];
                         check_program(cx, &mut sub, &q, &pts, &[3, 4, 255]);
                     }
+                });
+            }
+            Unit::Pressure { n, prefix } => {
+                let spec = pressure_spec();
+                let pts = generic_points(4);
+                spec.for_each(n, &prefix, false, &mut |p, _| {
+                    check_program(cx, &mut sub, p, &pts, &[3, 4, 5]);
                 });
             }
             Unit::Fan { w } => {
